@@ -73,3 +73,33 @@ K('C10.e', property='C10', engine='symex', harness='C04/neigh.cpp', entries=['k_
   assumptions=['ANeigh sub-object built by the real constructor of a test subclass; Db objects are raw storage, never dereferenced'],
   stubs=['TNeigh (test subclass of ANeigh): getNeigh/hasChanged/getMaxSampleNumber not called here', 'ASpaceObject(const ASpace*), ~ASpaceObject: no default-space cloning',
          'Ball::Ball(data,...): no tree built', 'Db::isSampleIndexValid, messageAbort, memcmp: not reached here'])
+
+# C10.a3  no half-built memo survives a failed request of KrigingCalcul (DESIGN suspect S5)
+_KN_X = ['InvSigma', 'InvPriorCov', 'XtInvSigma', 'Sigmac', 'Beta', 'InvSigmaSigma0', 'Y0', 'Sigma0p', 'Sigma00p', 'Sigma00pp', 'X0p', 'Z0p', 'Y0p',
+         'Lambda0', 'LambdaSK', 'MuUK', 'LambdaUK', 'VarZSK', 'VarZUK', 'Stdv', 'Zstar']
+# pass pipeline without the late simplifycfg<sink-common-insts>: it turns 'flagSK ? _VarZSK : _VarZUK' of getVarianceZstarMat into one load through a selected address
+# five kernels so that the property runner decides them in parallel: ~8500 obligations in all, most of them 'null pointer dereference' / 'use after free' on the
+# present/absent inputs and memo fields; the requests at the top of the dependency graph (last three groups) carry 80% of them
+_KN_GROUPS = (_KN_X[0:7], _KN_X[7:14], _KN_X[14:17], _KN_X[17:19], _KN_X[19:21])
+for _i, _grp in enumerate(_KN_GROUPS):
+  K('C10.a3.%d' % (_i + 1), property='C10', engine='symex', harness='C10/kneed.cpp', entries=['k_need_' + _x for _x in _grp], tus=_kc._KC_TUS, passes=_COW_PASSES,
+    bounds={'quick': 'fresh KrigingCalcul (real constructor, dual form or not), inputs given through the real setters setData/setLHS/setRHS/setVar/setColCokUnique/setBayes '
+                     'with every present/absent combination of Z, Sigma, X, Sigma0, X0, Sigma00, PriorMean, PriorCov; (number of drift functions, number of collocated variables) '
+                     'in {0,1}x{0,1}; 2 data equations, 2 right-hand sides; each of the 4 inversions (Sigma, PriorCov, Sigmac, local matrix of _needLambda0) succeeds or fails arbitrarily; '
+                     'then one request _needX, for X in ' + ', '.join(_grp)},
+    timeout_ms={'quick': 60000, 'thorough': 600000}, validate={'quick': 6, 'thorough': 30},
+    what='KrigingCalcul::_needInvSigma, _needInvPriorCov, _needXtInvSigma, _needSigmac, _needBeta, _needInvSigmaSigma0, _needY0, _needSigma0p, _needSigma00p, _needSigma00pp, '
+         '_needX0p, _needZ0p, _needY0p, _needLambda0, _needLambdaSK, _needMuUK, _needLambdaUK, _needVarZSK, _needVarZUK, _needStdv, _needZstar (+ _patchColCokVarianceZstar, the '
+         'presence tests, the real setters and getters): a request that returns non-zero leaves its memo field null / empty, and the same request repeated at once '
+         '(through the public getter where one exists) reports the failure again instead of handing out the half-built field',
+    out='values of the matrices; failures injected elsewhere than in the inversions and the presence tests; schedules of several different requests before the failing one; '
+        'setXvalidUnique (its patch calls _needInvSigma: same defect class); _bDual/_cDual (recomputed on every request); Means absent (_needZstar dereferences _Means unguarded)',
+    assumptions=['inversion failure is a function of which matrix is inverted (_InvSigma, _InvPriorCov, _Sigmac, other), not of the call count: repeating the inversion of the same data fails again',
+                 'dimension counters _neq/_nrhs/_nbfl/_ncck are forced to the shape constants after the setters ran (they only size the matrices the _need functions allocate)',
+                 'Means is always given; collocated option only with the primal form and after an input defining _nrhs (otherwise setColCokUnique fails and leaves _ncck == 0)'],
+    stubs=['messerr / message: empty (error text only)', 'strlen: plain loop (solver build only)',
+           'AMatrix::invert: returns 0 or 1 under the nondet bit attached to the role of the inverted matrix',
+           'AMatrix::linearCombination, AMatrix::prodMatMatInPlace, AMatrixDense::prodMatMatInPlace, AMatrix::prodNormMatMatInPlace, AMatrixDense::prodNormMatMatInPlace, '
+           'VectorHelper::linearCombinationInPlace: empty',
+           'AMatrix::prodMatVec, AMatrixDense::prodMatVec, VectorHelper::sample: return a vector of one element',
+           'MatrixRectangular::sample, MatrixSquareSymmetric::sample: return a fresh 1x1 matrix'])
